@@ -64,6 +64,19 @@ CLAIMED = {
                 "own support are not compared (undefined).",
         "ref": "DESIGN.md section 3 C06",
     },
+    "C20": {
+        "technique": "PiecewiseLinear.tla: exact cell masses and within-cell inverse CDF, tables enumerated by TLC and replayed into "
+                     "piecewise_linear_sample with a scripted generator; get_conditionals / conditional_sample call traces validated by CondTrace.tla",
+        "text": "Every table of 1..2 (quick) / 1..3 (thorough) cells over uniform and non-uniform dyadic grids with entries 0..2/3 (zeros "
+                "included) plus a |delta| < 1e-5 table: the probabilities handed to choice() must be the exact cell masses and every "
+                "(cell, u) must give TLC's sample. For random Gaussian posteriors (independent / correlated, scales 1e-3..1e3, four bound "
+                "regimes) every posterior evaluation must be inside the bounds and on the scanned axis, the grid ascending, inside and "
+                "covering the 1% region, the density proportional to exp(logp), normalised and within 5e-3 of the true truncated-Gaussian "
+                "conditional; samples inside the bounds.",
+        "note": "Trusted: TLC; the projection computes the true conditional of a Gaussian in closed form. Accuracy outside the well-resolved "
+                "regime named by the property is not decided.",
+        "ref": "DESIGN.md section 3 C20",
+    },
     "C07": {
         "technique": "Leapfrog.tla state machine in exact dyadic arithmetic model-checked by TLC (reversibility, Jacobian determinant, "
                      "exact shadow-energy conservation, mass consistency); every exact orbit replayed bit-exactly into run_leapfrog / "
